@@ -165,7 +165,11 @@ func (e *env) queryChecked(q *query, before *stateSnap) *stateSnap {
 			Error string `json:"error"`
 		}
 		if out.Unmarshal(res.Value) == nil && json.Unmarshal(out.Data, &trs) == nil && len(trs) == len(want) {
+			prefix, _ := q.Desc["comparable_prefix"].(int)
 			for i := range trs {
+				if i >= prefix {
+					break
+				}
 				if trs[i].Error != "" || trs[i].Result.Gas == 0 {
 					continue
 				}
